@@ -48,6 +48,11 @@ def judge(exp, obs):
         return {'expected': 'a diagnostic %d' % exp['code'], 'implementation': str(obs['entries'])[:300] + ' res=' + obs['res']}
     want = exp['positions'][0] if 'positions' in exp else exp['trace'][0]
     got = hits[0]
+    if want[1] is None:
+        # a token that went through a macro expansion: file and line only
+        if (got[2], got[4]) != (want[0], exp['file']):
+            return {'expected [L|file]': [want[0], exp['file']], 'implementation': [got[2], got[3], got[4]]}
+        return None
     if (got[2], got[3], got[4]) != (want[0], want[1], exp['file']):
         return {'expected [L|C|file]': [want[0], want[1], exp['file']], 'implementation': [got[2], got[3], got[4]]}
     if 'trace' in exp:
@@ -108,7 +113,7 @@ def run(ctx):
             if n_or <= 3:
                 rep.violation('oracle', {'property': 'C14', 'kind': c['kind'], 'seed': ctx.seed, 'case': c['id'], 'source': c['text'], 'files': c['files'],
                                          'difference': bad, 'raw': (impl.get(c['id']) or '')[:600], 'line': c['line'][:9000]})
-        if model is not None and not c['known']:
+        if model is not None and not c['known'] and not c['exp'].get('nomodel'):
             mo = model.get(c['id'])
             if mo is not None and mo != 'bad-verb':
                 want = c['exp']
